@@ -166,7 +166,7 @@ impl Property for Prop {
         "C03"
     }
     fn rule(&self) -> &'static str {
-        "bits: for seeded fragment trains (2..6 packets, PDU 1..200 bytes, all label kinds incl. re-use substituted first fragments) built by the real encapsulator: EVERY single bit flip of every packet, EVERY burst (every start bit x length 2..32, all-ones pattern; thorough adds two random interior patterns), truncation at EVERY byte, drop / duplicate / adjacent swap of EVERY fragment, the frag-id field replaced by all 256 values, the CRC trailer replaced by {0, ~crc, crc+1, crc-1, byte rotations, random values}; totlen: the total-length field replaced by all 65536 values; double: seeded pairs of the above faults; reseal: structurally faulted trains whose trailer / total length are recomputed for a wrong interpretation (payload without the dropped fragment, with the duplicate, 16-bit wrapped overlay with >= 64 KiB storage, header of another train, label present but sealed as if re-used, first fragment repeated after an intermediate fragment, an early end fragment followed by more fragments, zero-length PDUs with a bad seal), and trains of different PDUs spliced on one fragment id; big: trains near 65535 bytes with storage >= 64 KiB incl. over-long trains. Oracle 1 (specification on the received bytes) applies to every run; oracle 2 (no delivery / delivered == sent) to the fault classes the property names. Evaluation = one decap call of a faulted transfer; non-trivial = a faulted transfer (fault actually changed the bytes or the order) that was fed completely; fingerprint = hash(train, fault)."
+        "bits: for seeded fragment trains (2..6 packets, PDU 1..200 bytes, all label kinds incl. re-use substituted first fragments) built by the real encapsulator: EVERY single bit flip of every packet, EVERY burst (every start bit x length 2..32, all-ones pattern; thorough adds two random interior patterns), truncation at EVERY byte, drop / duplicate / adjacent swap of EVERY fragment, the frag-id field replaced by all 256 values, the CRC trailer replaced by {0, ~crc, crc+1, crc-1, byte rotations, random values}; totlen: the total-length field replaced by all 65536 values; double: seeded pairs of the above faults; reseal: structurally faulted trains whose trailer / total length are recomputed for a wrong interpretation (payload without the dropped fragment, with the duplicate, 16-bit wrapped overlay with >= 64 KiB storage, header of another train, label present but sealed as if re-used, first fragment repeated after an intermediate fragment, an early end fragment followed by more fragments, zero-length PDUs with a bad seal, a valid train interrupted by a first fragment of its own id that the receiver must refuse, a first fragment with an extension header sealed for a gap of stale storage bytes before / after its payload), and trains of different PDUs spliced on one fragment id; big: trains near 65535 bytes with storage >= 64 KiB incl. over-long trains. Oracle 1 (specification on the received bytes) applies to every run; oracle 2 (no delivery / delivered == sent) to the fault classes the property names. Evaluation = one decap call of a faulted transfer; non-trivial = a faulted transfer (fault actually changed the bytes or the order) that was fed completely; fingerprint = hash(train, fault)."
     }
     fn gens(&self, cx: &Cx) -> Vec<Gen> {
         vec![
@@ -418,7 +418,8 @@ impl Property for Prop {
                     v
                 };
                 let all: Vec<usize> = (0..nseg).collect();
-                let variant = rng.below(10);
+                let variant = rng.below(13);
+                let mut primed_deliveries = 0usize;
                 let (pkts, class): (Vec<Vec<u8>>, &str) = match variant {
                     0 => {
                         // fragment dropped on the wire, but trailer and total length sealed for the FULL PDU
@@ -507,6 +508,76 @@ impl Property for Prop {
                         let p = vec![mk_first(lt, &wl, id, t, pt, &[]), mk_end(id, &[], crc)];
                         (p, if bad_kind == 2 || (bad_kind == 1 && pt == ptype) { "reseal-control-valid" } else { "reseal-zero-length-pdu-bad-seal" })
                     }
+                    10 => {
+                        // a valid train interrupted by a first fragment of the SAME id that the receiver must refuse
+                        // (unknown mandatory extension, extension chain running past the packet, null label,
+                        // total length too small, payload larger than the storage, unresolvable re-use label): it is
+                        // the most recent first fragment of that id, so the old train's remaining fragments no
+                        // longer complete anything
+                        let mut p = mk(total(full.len()), &full, &all);
+                        let at = 1 + rng.below(nseg - 1);
+                        let pay_n = 1 + rng.below(20);
+                        let pay = rng.bytes(pay_n);
+                        let t2 = total(pay.len() + 30);
+                        let kind = rng.below(if lt == 2 { 6 } else { 5 });
+                        let bad = match kind {
+                            0 => wire::serialise(&wire::Fields { kind: Kind::First, lt, frag_id: id, total_len: t2, ptype, label: &wl, exts: &[wire::ExtEntry { id: 0x0000 | rng.byte() as u16, data: vec![] }], final_ext: true, payload: &pay, crc: 0 }),
+                            1 => {
+                                // optional extension announcing 8 data bytes in a packet that ends after 3
+                                let mut b = wire::serialise(&wire::Fields { kind: Kind::First, lt, frag_id: id, total_len: t2, ptype: 0x0500 | rng.byte() as u16, label: &wl, exts: &[], final_ext: false, payload: &pay[..pay.len().min(3)], crc: 0 });
+                                let _ = &mut b;
+                                b
+                            }
+                            2 => mk_first(0, &[0, 0, 0, 0, 0, 0], id, t2, ptype, &pay),
+                            3 => mk_first(lt, &wl, id, pay.len() as u16, ptype, &pay),
+                            4 => {
+                                let big_n = full.len() + 81 + rng.below(40);
+                                let big = rng.bytes(big_n);
+                                mk_first(lt, &wl, id, total(big.len() + 10), ptype, &big)
+                            }
+                            _ => mk_first(3, &[], id, (2 + pay.len() + 30) as u16, ptype, &pay),
+                        };
+                        p.insert(at, bad);
+                        (p, ["reseal-refused-restart:unknown-mandatory", "reseal-refused-restart:chain-overrun", "reseal-refused-restart:null-label", "reseal-refused-restart:short-total", "reseal-refused-restart:oversize", "reseal-refused-restart:unresolvable-reuse"][kind])
+                    }
+                    11 | 12 => {
+                        // a train whose first fragment carries an extension header and whose total length and
+                        // trailer are sealed for "payload with a gap of g stale bytes" (after the first fragment's
+                        // payload, or before it): the storage content is known (fresh zeroes, or the PDU delivered
+                        // just before from the same buffer), so the seal is right for a receiver that leaves a gap
+                        let ext = wire::ExtEntry { id: 0x0200 | rng.byte() as u16, data: rng.bytes(2) };
+                        let ext_extra = wire::chain_extra_len(std::slice::from_ref(&ext), false);
+                        let g = if rng.chance(1, 2) { ext_extra } else { 1 + rng.below(8) };
+                        let a = &segs[0];
+                        let b: Vec<u8> = segs[1..].concat();
+                        let prime_pdu: Vec<u8> = rng.bytes(a.len() + g + b.len() + 8);
+                        let use_prime = rng.chance(1, 2);
+                        let stale = |i: usize| if use_prime { prime_pdu[i] } else { 0u8 };
+                        let mut sealed: Vec<u8> = Vec::new();
+                        if variant == 11 {
+                            sealed.extend_from_slice(a);
+                            sealed.extend((a.len()..a.len() + g).map(stale));
+                        } else {
+                            sealed.extend((0..g).map(stale));
+                            sealed.extend_from_slice(a);
+                        }
+                        sealed.extend_from_slice(&b);
+                        let t = total(sealed.len());
+                        let crc = fr.gse(t, ptype, &wl, &sealed);
+                        let mut p = Vec::new();
+                        if use_prime {
+                            // a valid transfer on another id leaves its bytes in the buffer that is used next
+                            let cut = prime_pdu.len() / 2;
+                            p.extend(crate::hostile::mk_train(&fr, lt, &wl, id.wrapping_add(1), ptype, &prime_pdu, &[cut]));
+                            primed_deliveries = 1;
+                        }
+                        p.push(wire::serialise(&wire::Fields { kind: Kind::First, lt, frag_id: id, total_len: t, ptype, label: &wl, exts: std::slice::from_ref(&ext), final_ext: false, payload: a, crc: 0 }));
+                        for k in 1..nseg - 1 {
+                            p.push(mk_inter(id, &segs[k]));
+                        }
+                        p.push(mk_end(id, &segs[nseg - 1], crc));
+                        (p, if variant == 11 { "reseal-gap-of-stale-bytes-after-first-fragment" } else { "reseal-gap-of-stale-bytes-before-first-fragment" })
+                    }
                     _ => {
                         // correct train (must be delivered and verified by oracle 1)
                         (mk(total(full.len()), &full, &all), "reseal-control-valid")
@@ -516,7 +587,7 @@ impl Property for Prop {
                 let storage = full.len() + 80;
                 let mut d = plain_dec(2, storage, 2, storage, table.clone());
                 let mut rx = RxSpec::new(table);
-                let mut delivered = false;
+                let mut deliveries = 0usize;
                 for p in &pkts {
                     rep.eval();
                     let r = dec_guard(&mut d, p);
@@ -526,10 +597,14 @@ impl Property for Prop {
                     }
                     rx.observe(p, &r, RX_C03, class, rep, &replay);
                     if let Ok(Ok((DecapStatus::CompletedPkt(b, _), _))) = r {
-                        delivered = true;
+                        deliveries += 1;
                         let _ = d.provision_storage(b);
                     }
                 }
+                if primed_deliveries > 0 && deliveries < primed_deliveries {
+                    rep.count("c03.priming-transfer-not-delivered");
+                }
+                let delivered = deliveries > primed_deliveries;
                 if delivered && class != "reseal-control-valid" && variant != 4 {
                     rep.violation("C03", format!("delivered-despite-fault:{}", class), || format!("{}: a PDU was delivered from {:?}", class, pkts.iter().map(|p| hex_short(p, 20)).collect::<Vec<_>>()), &replay);
                 }
